@@ -616,7 +616,9 @@ def c07_job(job) -> List[Dict[str, Any]]:
     prog = Program()
     roles = prog.roles()[idx]
     out = []
-    for sizes in _sizes(tier):
+    # (the four-team games of the thorough tier are left out here: clearing six distinct pair scales exceeds the budget of a zero
+    # test for the full-pairing models; the closed forms R1.1 cover those games)
+    for sizes in _sizes("quick"):
         for lv in weak_orderings(len(sizes)):
             desc = f"sum over teams of (members' mu change) / (team variance after inflation) == 0: team sizes {sizes}, {describe(lv)}"
             try:
